@@ -180,16 +180,15 @@ class Task(NamedUIDObject):
                 self.append_z3_assertion(resource_busy_start >= self._start)
                 self.append_z3_assertion(resource_busy_start <= resource_busy_end)
             else:
-                if early_out > 0:
-                    self.append_z3_assertion(resource_busy_end == self._end - early_out)
-                else:
-                    self.append_z3_assertion(resource_busy_end == self._end)
-                if delay_in > 0:
-                    self.append_z3_assertion(
-                        resource_busy_start == self._start + delay_in
-                    )
-                else:
-                    self.append_z3_assertion(resource_busy_start == self._start)
+                busy_end = self._end - early_out if early_out > 0 else self._end
+                busy_start = self._start + delay_in if delay_in > 0 else self._start
+                if self.optional and (early_out > 0 or delay_in > 0):
+                    # an unscheduled task is a single instant in the past: the
+                    # delays must not turn it into an inverted busy interval
+                    busy_end = z3.If(self._scheduled, busy_end, self._end)
+                    busy_start = z3.If(self._scheduled, busy_start, self._start)
+                self.append_z3_assertion(resource_busy_end == busy_end)
+                self.append_z3_assertion(resource_busy_start == busy_start)
             # finally, store this resource into the resource list
             self._required_resources.append(resource)
 
